@@ -39,7 +39,13 @@ RULE = ("every public sparse operation (13 binary element-wise operations x {sca
         "tensor.to_sptensor, sptendiag, sptenrand, from_function) on shapes of order 1..4 with <= 24 cells and 0..6 "
         "stored entries of both signs; each case under all n! stored orders of each sparse operand for n <= 4 "
         "(both operands: the full product when it has <= 36 combinations, otherwise each operand alone plus 12 "
-        "random pairs) and 24 random orders beyond; non-trivial = at least two stored entries in a reordered "
+        "random pairs) and 24 random orders beyond; a deterministic family `collisions`: for ttv / ttm / collapse / "
+        "contract / mttkrp / to_sptenmat / __getitem__ / squash / scale, fixed shapes (3,5,3) (2,3,4) (4,2,3) (3,4) "
+        "(4,3) (2,2,3,2) ..., EVERY choice of modes (every subset for order <= 3; first / each middle / last / last "
+        "several / all but one / all for order 4; every pair of equal modes for contract), operands with 3..5 "
+        "entries of which two or more share the remaining subscripts (collide after the operation) and are stored "
+        "non-adjacently, summing and cancelling, hitting at most half and more than half of the result cells (both "
+        "sides of the densify switch), under all n! stored orders; non-trivial = at least two stored entries in a reordered "
         "operand and an accepted request; distinct = distinct case hash")
 ASSUMPTIONS = [
     "values are small integers, so sums formed in different orders are the same double",
@@ -326,10 +332,20 @@ OPS += [
        lambda A, B, p: ttb.sptenmat.from_array(A.to_sptenmat(np.array([0], dtype=int)).double(), np.array([0], dtype=int),
                                                np.arange(1, len(A.shape), dtype=int), tuple(A.shape)), None,
        public="sptenmat.from_array"),
+    Op("ttv:dims", None, lambda A, B, p: A.ttv([np.array(v, dtype=float) for v in p["vs"]], np.array(p["dims"], dtype=int)),
+       None, public="ttv"),
+    Op("ttm:dims", None, lambda A, B, p: A.ttm([np.array(M, dtype=float) for M in p["Ms"]], np.array(p["dims"], dtype=int)),
+       None, public="ttm"),
+    Op("getitem:int", None, lambda A, B, p: A[_key_at(A, p["n"], p["k"])], None, public="__getitem__"),
+    Op("getitem:list", None, lambda A, B, p: A[_key_at(A, p["n"], list(p["ks"]))], None, public="__getitem__"),
     Op("sptenmat.full_norm", lambda rng, s: {"r": [0]},
        lambda A, B, p: (A.to_sptenmat(np.array(p["r"], dtype=int)).full(), A.to_sptenmat(np.array(p["r"], dtype=int)).norm(),
                         A.to_sptenmat(np.array(p["r"], dtype=int)).double()), None, public="sptenmat.full"),
 ]
+
+
+def _key_at(A, n, k):
+    return tuple(k if m == n else slice(None) for m in range(len(A.shape)))
 
 
 def _spm_setitem(A, p):
@@ -361,6 +377,8 @@ class OrderIndependence(Family):
         out = []
         reps = 3 if tier == "quick" else 50
         for op in OPS:
+            if op.params is None:
+                continue
             for _ in range(reps):
                 s = small_shape(rng, op.nmin)
                 a = rand_entries(rng, s, 5 if op.two else 6)
@@ -482,6 +500,12 @@ class OrderIndependence(Family):
                             verdict = Verdict("corr", f"{where}: stored form differs from the model's", st, m, None, tags)
             if opname == "mask" and verdict is None and first is not None and first[0] == "ok":
                 verdict = self.check_mask(c, runs, tags)
+            if first is not None and first[0] == "ok" and isinstance(first[1], dict):
+                tags.append("result:" + next(iter(first[1])))
+            elif first is not None:
+                tags.append("result:rejected")
+            for t in c.get("tags", []):
+                tags.append(t)
             nontriv = first is not None and first[0] == "ok" and (len(c["a"]["subs"]) >= 2 or len(c.get("b", {"subs": []})["subs"]) >= 2)
             out.append(verdict or Verdict("ok", "", None, None, None, tags, nontriv))
         return out
@@ -504,6 +528,187 @@ class OrderIndependence(Family):
             for k in range(len(ent["subs"])):
                 yield {**case, side: {"subs": ent["subs"][:k] + ent["subs"][k + 1:], "vals": ent["vals"][:k] + ent["vals"][k + 1:]}}
 
+
+
+# ----------------------------------------------------------------------------
+# operands whose entries COLLIDE after the operation, stored non-adjacently
+# ----------------------------------------------------------------------------
+COLLISION_SHAPES = [[3, 5, 3], [2, 3, 4], [4, 2, 3], [3, 4], [4, 3], [2, 2, 3, 2], [2, 2, 2], [5]]
+
+
+def mode_choices(N):
+    """every "which modes" class: for N <= 3 every non-empty subset; for N = 4 first, each middle one, last,
+    last two, last three, first two, every all-but-one, all."""
+    if N <= 3:
+        return [list(c) for r in range(1, N + 1) for c in itertools.combinations(range(N), r)]
+    out = [[0], [1], [2], [3], [2, 3], [1, 2, 3], [0, 1], [0, 2], [0, 1, 2], [0, 1, 3], [0, 2, 3], [0, 1, 2, 3]]
+    return out
+
+
+def colliding_entries(shape, D, dense_side, cancel, vshift=0):
+    """Stored entries (<= 5) with two (or more) entries that agree on the modes NOT in `D` and differ on a mode
+    in `D`, placed so that the colliding entries are not adjacent in storage.  `dense_side`: more than half of
+    the cells of the remaining shape are hit (the densify switch), otherwise at most half.  `cancel`: the
+    colliding values sum to zero (under an all-ones weight)."""
+    N = len(shape)
+    rem = [m for m in range(N) if m not in D]
+    remshape = [shape[m] for m in rem]
+    rn = gen.numel(remshape)
+    cells = gen.all_subs(remshape) if rem else [[]]
+    # spread the groups over the remaining cells (not only the first ones)
+    if dense_side:
+        g = rn // 2 + 1
+    else:
+        g = max(1, min(2, rn // 2)) if rn >= 2 else 1
+    g = min(g, 4, len(cells))
+    step = max(1, len(cells) // g)
+    groups = [cells[(k * step + (1 if len(cells) > g else 0)) % len(cells)] for k in range(g)]
+    groups = [list(x) for x in dict.fromkeys(tuple(x) for x in groups)]
+    lo = {m: 0 for m in D}
+    hi = {m: shape[m] - 1 for m in D}
+    mid = {m: (shape[m] - 1) // 2 for m in D}
+
+    def full(gr, cd):
+        out = [0] * N
+        for m, x in zip(rem, gr):
+            out[m] = x
+        for m in D:
+            out[m] = cd[m]
+        return out
+    subs = [full(gr, lo) for gr in groups]
+    vals = [2 + vshift + k for k in range(len(groups))]
+    if any(shape[m] > 1 for m in D):
+        # second entry of group 0 goes LAST: with >= 2 groups it is not adjacent to the first
+        subs.append(full(groups[0], hi))
+        vals.append(-vals[0] if cancel else 3 + vshift)
+        if len(subs) < 5 and len(groups) >= 2 and mid != lo and mid != hi:
+            subs.append(full(groups[1], mid))
+            vals.append(5 + vshift)
+        elif len(subs) < 5 and len(groups) >= 2:
+            subs.insert(1, full(groups[-1], hi))   # g_last@hi between g0@lo and g1@lo
+            vals.insert(1, 7 + vshift)
+    return {"subs": subs, "vals": vals}
+
+
+def modes_class(N, D):
+    if len(D) == N:
+        return "modes:all"
+    if len(D) == N - 1:
+        return "modes:all-but-one"
+    if D == list(range(N - len(D), N)):
+        return "modes:last" if len(D) == 1 else "modes:last-several"
+    if D == list(range(len(D))):
+        return "modes:first" if len(D) == 1 else "modes:first-several"
+    return "modes:middle" if len(D) == 1 else "modes:scattered"
+
+
+def _remkey(r, D):
+    return tuple(x for m, x in enumerate(r) if m not in D)
+
+
+def has_collision(a, D):
+    keys = [_remkey(r, D) for r in a["subs"]]
+    return len(set(keys)) < len(keys)
+
+
+def nonadjacent_collision(a, D):
+    keys = [_remkey(r, D) for r in a["subs"]]
+    for x in range(len(keys)):
+        for y in range(x + 2, len(keys)):
+            if keys[x] == keys[y] and any(keys[z] != keys[x] for z in range(x + 1, y)):
+                return True
+    return False
+
+
+class Collisions(OrderIndependence):
+    """ttv / ttm / collapse / contract / mttkrp / to_sptenmat / __getitem__ / squash / scale on operands with
+    entries that collide after the operation and are stored non-adjacently; every "which modes" choice; both
+    sides of the densify switch; cancelling and non-cancelling collisions; all stored orders."""
+    name = "collisions"
+    theorems = ("C06_aggregator_wf", "C06_perm_aggregator", "C06_denote_perm", "C06_wf_conversions")
+
+    def gen(self, rng, tier):
+        out = []
+        shapes = COLLISION_SHAPES if tier == "thorough" else COLLISION_SHAPES[:6]
+        vshift = rng.randint(0, 2)
+
+        def add(op, s, a, p, tags=()):
+            out.append({"op": op, "shape": s, "a": a, "p": p, "seed": 12345, "tags": list(tags)})
+
+        for s in shapes:
+            N = len(s)
+            for D in mode_choices(N):
+                rem = [m for m in range(N) if m not in D]
+                for dense_side in (False, True):
+                    for cancel in (False, True):
+                        a = colliding_entries(s, D, dense_side, cancel, vshift)
+                        if tier == "quick" and cancel and dense_side:
+                            continue
+                        T = [modes_class(N, D), "target>half" if dense_side else "target<=half", "cancelling" if cancel else "summing",
+                             "collides" if has_collision(a, D) else "no-collision",
+                             "nonadjacent" if nonadjacent_collision(a, D) else "adjacent-or-none"]
+                        ones = [[1] * s[m] for m in D]
+                        ramp = [[(k % 2) + 1 for k in range(s[m])] for m in D]
+                        add("ttv:dims", s, a, {"dims": D, "vs": ones}, T)
+                        if not cancel:
+                            add("ttv:dims", s, a, {"dims": D, "vs": ramp}, T)
+                        add("collapse", s, a, {"dims": D, "f": "sum"}, T)
+                        if not cancel:
+                            add("collapse", s, a, {"dims": D, "f": "max"}, T)
+                        if len(D) <= 2:
+                            for rows in (1, 2):
+                                Ms = [[[1] * s[m] for _ in range(rows)] for m in D]
+                                add("ttm:dims", s, a, {"dims": D, "Ms": Ms}, T)
+                        if not cancel and not dense_side:
+                            add("to_sptenmat", s, a, {"r": D, "c": rem}, T)
+                            add("to_sptenmat", s, a, {"r": rem, "c": D}, T)
+                            add("sptenmat.to_sptensor", s, a, {"r": D, "c": rem}, T)
+                if N >= 2:
+                    a = colliding_entries(s, D, False, False, vshift)
+                    for n in D if len(D) == 1 else []:
+                        add("mttkrp", s, a, {"n": n, "U": [[[1, (k % 2) + 1] for k in range(m)] for m in s]})
+                        add("getitem:int", s, a, {"n": n, "k": 0})
+                        add("getitem:int", s, a, {"n": n, "k": s[n] - 1})
+                        add("getitem:list", s, a, {"n": n, "ks": sorted({0, s[n] - 1})})
+                        add("scale:vector", s, a, {"d": n, "v": [0 if k == 0 else k + 1 for k in range(s[n])]})
+                    add("squash", s, a, {})
+        # contract: diagonal entries that share the remaining subscripts
+        cshapes = [[3, 3, 2], [2, 3, 3], [3, 2, 3], [2, 2, 2, 3], [3, 3, 4]] + ([[2, 2], [2, 3, 2, 3]] if tier == "thorough" else [])
+        for s in cshapes:
+            N = len(s)
+            for i, j in itertools.permutations(range(N), 2):
+                if s[i] != s[j]:
+                    continue
+                rem = [m for m in range(N) if m not in (i, j)]
+                remshape = [s[m] for m in rem]
+                cells = gen.all_subs(remshape) if rem else [[]]
+                for dense_side in (False, True):
+                    g = (len(cells) // 2 + 1) if dense_side else max(1, min(2, len(cells) // 2))
+                    g = min(g, 3, len(cells))
+                    groups = [cells[(2 * k + 1) % len(cells)] for k in range(g)]
+                    groups = [list(x) for x in dict.fromkeys(tuple(x) for x in groups)]
+
+                    def full(gr, d, e):
+                        o = [0] * N
+                        for m, x in zip(rem, gr):
+                            o[m] = x
+                        o[i], o[j] = d, e
+                        return o
+                    for cancel in (False, True):
+                        subs = [full(gr, 0, 0) for gr in groups]
+                        vals = [2 + vshift + k for k in range(len(groups))]
+                        subs.append(full(groups[0], s[i] - 1, 1 if s[i] > 1 else 0))   # off the diagonal (if possible)
+                        vals.append(9)
+                        subs.append(full(groups[0], s[i] - 1, s[i] - 1))                 # collides with the first
+                        vals.append(-vals[0] if cancel else 4 + vshift)
+                        seen, ss, vv = set(), [], []
+                        for r, v in zip(subs, vals):
+                            if tuple(r) not in seen:
+                                seen.add(tuple(r))
+                                ss.append(r)
+                                vv.append(v)
+                        add("contract", s, {"subs": ss, "vals": vv}, {"i": i, "j": j})
+        return out
 
 def norm_model(opname, mm):
     """bring the model's reply to the canonical stored form used for the implementation."""
@@ -535,6 +740,18 @@ class Constructors(Family):
             subs = [rng.choice(cells) for _ in range(k)]
             vals = [rng.choice([-2, -1, 1, 2]) for _ in range(k)]
             out.append({"k": "agg", "shape": s, "subs": subs, "vals": vals, "f": rng.choice(["sum", "sum", "max", "len"]), "seed": rng.getrandbits(32)})
+        # repeated rows that are NOT adjacent in the input, summing and cancelling (deterministic)
+        for s in ([3], [2, 3], [3, 5, 3], [2, 2, 3, 2]):
+            cells = gen.all_subs(s)
+            a, b, c3 = cells[1 % len(cells)], cells[-1], cells[len(cells) // 2]
+            for vals in ([2, 3, 5, 7], [2, 3, -2, 7], [2, -3, -2, 3]):
+                for f in ("sum", "max", "len"):
+                    out.append({"k": "agg", "shape": s, "subs": [a, b, a, c3][:4], "vals": vals, "f": f, "seed": 777})
+                out.append({"k": "agg", "shape": s, "subs": [a, b, a, b], "vals": vals, "f": "sum", "seed": 777})
+        for s, r, c in (([2, 3], [0], [1]), ([3, 2, 2], [1], [0, 2]), ([2, 2, 3], [2, 0], [1])):
+            R, C = gen.numel([s[x] for x in r]), gen.numel([s[x] for x in c])
+            for vals in ([2, 3, 5], [2, 3, -2]):
+                out.append({"k": "sptenmat", "shape": s, "r": r, "c": c, "subs": [[0, 0], [R - 1, C - 1], [0, 0]], "vals": vals, "seed": 777})
         for _ in range(n // 2):
             s = small_shape(rng, 2)
             o = gen.perm(rng, len(s))
@@ -720,4 +937,4 @@ class Coverage(Family):
 
 
 def families():
-    return [OrderIndependence(), Constructors(), Coverage()]
+    return [OrderIndependence(), Collisions(), Constructors(), Coverage()]
